@@ -29,10 +29,6 @@ Definition cls_code (k : option cls) : nat :=
   match k with
   | None => 0
   | Some K_quoted_space => 1 | Some K_quoted_escape => 2
-  | Some K_rename_into_child => 5 | Some K_rename_leading_slash => 6
-  | Some K_rename_partial => 7 | Some K_inbox_rename_orphan => 8 | Some K_protected_case => 9
-  | Some K_inbox_twin => 10 | Some K_roles_shadow => 11 | Some K_lsub_persists => 12
-  | Some K_lsub_adds_inbox => 13
   end.
 
 Definition agrees (exact : bool) (r : store * res * list str) (cur : store) (ro : res) (view : list str) : bool :=
